@@ -148,6 +148,9 @@ pub struct HelperCase {
     pub pos: u16,
     pub delta: [i8; 4],
     pub other: Vec<[i8; 4]>,
+    /// memory layouts of the two tensors (a: layout % 3, b: layout / 3)
+    #[serde(default)]
+    pub layout: u8,
 }
 
 fn zw_of(c: &[i8; 4], e: i8) -> Zw {
@@ -160,6 +163,31 @@ fn zw_of(c: &[i8; 4], e: i8) -> Zw {
 fn to_tensor4(v: &[Zw], rank: usize) -> Tensor4 {
     let data: Vec<Scalar4> = v.iter().map(|z| mscalar_to_q(&MScalar::Exact(*z))).collect();
     Array::from_shape_vec(IxDyn(&vec![2; rank]), data).unwrap()
+}
+
+/// the same logical tensor in another memory layout: 1 = column-major (all axes reversed),
+/// 2 = axes permuted by a rotation; built so that indexing gives the same entries as layout 0
+fn to_tensor4_layout(v: &[Zw], rank: usize, layout: u8) -> Tensor4 {
+    if layout % 3 == 0 || rank < 2 {
+        return to_tensor4(v, rank);
+    }
+    let axes: Vec<usize> = if layout % 3 == 1 {
+        (0..rank).rev().collect()
+    } else {
+        (0..rank).map(|k| (k + 1) % rank).collect()
+    };
+    // result axis k = axis axes[k] of m, so m[j] = l[i] with i[k] = j[axes[k]]
+    let n = 1usize << rank;
+    let mut m = vec![Zw::ZERO; n];
+    for jflat in 0..n {
+        let j: Vec<usize> = (0..rank).map(|a| (jflat >> (rank - 1 - a)) & 1).collect();
+        let mut iflat = 0usize;
+        for k in 0..rank {
+            iflat = (iflat << 1) | j[axes[k]];
+        }
+        m[jflat] = v[iflat];
+    }
+    to_tensor4(&m, rank).permuted_axes(IxDyn(&axes))
 }
 
 fn check_helper(c: &HelperCase, obs: &mut Obs) -> Result<(), String> {
@@ -200,8 +228,18 @@ fn check_helper(c: &HelperCase, obs: &mut Obs) -> Result<(), String> {
         }
         _ => (t.clone(), t.clone(), rank),
     };
-    let ta = to_tensor4(&a, rank);
-    let tb = to_tensor4(&b, rb);
+    let ta = to_tensor4_layout(&a, rank, c.layout % 3);
+    let tb = to_tensor4_layout(&b, rb, c.layout / 3);
+    obs.class_if((c.layout % 3 != 0 && rank >= 2) || (c.layout / 3 % 3 != 0 && rb >= 2), "non-standard-memory-layout");
+    // the layouts are invisible to indexing
+    for (t, v, r) in [(&ta, &a, rank), (&tb, &b, rb)] {
+        for (flat, want) in v.iter().enumerate() {
+            let ix: Vec<usize> = (0..r).map(|k| (flat >> (r - 1 - k)) & 1).collect();
+            if crate::oracle::diag::read_scalar(&t[IxDyn(&ix)]) != MScalar::Exact(*want) {
+                return Err("harness: layout construction changed the logical tensor".into());
+            }
+        }
+    }
     let truth_prop = rank == rb && proportional_exact(&a, &b);
     let truth_eq = rank == rb && a == b;
     let first_a = a.iter().find(|x| !x.is_zero());
@@ -362,7 +400,8 @@ pub fn def(ctx: &Ctx) -> PropertyDef {
             || {
                 (
                     0usize..=3,
-                    prop::collection::vec(prop::array::uniform4(-2i8..=2), 0..=8),
+                    // sparse tensors: the first non-zero entry is often not entry 0
+                    prop::collection::vec(prop_oneof![2 => Just([0i8; 4]), 3 => prop::array::uniform4(-2i8..=2)], 0..=8),
                     prop::collection::vec(-2i8..=2, 0..=8),
                     0u8..8,
                     prop::array::uniform4(-2i8..=2),
@@ -370,9 +409,10 @@ pub fn def(ctx: &Ctx) -> PropertyDef {
                     any::<u16>(),
                     prop::array::uniform4(-1i8..=1),
                     prop::collection::vec(prop::array::uniform4(-2i8..=2), 0..=8),
+                    0u8..9,
                 )
                     .prop_map(
-                        |(rank, entries, exps, relation, lambda, lambda_exp, pos, delta, other)| {
+                        |(rank, entries, exps, relation, lambda, lambda_exp, pos, delta, other, layout)| {
                             HelperCase {
                                 rank,
                                 entries,
@@ -383,6 +423,7 @@ pub fn def(ctx: &Ctx) -> PropertyDef {
                                 pos,
                                 delta,
                                 other,
+                                layout,
                             }
                         },
                     )
